@@ -222,14 +222,47 @@ def harness(
 
 
 def ladder(x: typing.Any, lo: int, hi: int) -> int:
-    """Concretise a (possibly symbolic) int in lo..hi by an explicit fork per
-    value, so that later slicing/indexing uses a plain int."""
-    for v in range(lo, hi):
-        if x == v:
-            return v
-    return hi
+    """Concretise a (possibly symbolic) int known to lie in lo..hi by explicit
+    forks (binary search: about log2(hi-lo) solver decisions per path, one
+    path per feasible value), so that later slicing/indexing uses a plain
+    int."""
+    if type(x) is int and not hasattr(type(x), "__ch_realize__") and not is_tracing():
+        return min(max(x, lo), hi)
+    while lo < hi:
+        mid = (lo + hi) // 2
+        if x <= mid:
+            hi = mid
+        else:
+            lo = mid + 1
+    return lo
 
 
 def pick(x: typing.Any, options: typing.Sequence[typing.Any]) -> typing.Any:
     """Choose options[x] with one fork per option (x symbolic in range)."""
     return options[ladder(x, 0, len(options) - 1)]
+
+
+class concrete:
+    """Every symbolic variable of the harness has been concretised (ladder /
+    pick / bool()): run the rest of the path with CrossHair's interception
+    switched off.  The solver still enumerates the choice space exhaustively
+    (one path per feasible combination); the real code then runs natively on
+    that combination, which is what happens under tracing too once no symbolic
+    value is live - just two orders of magnitude faster."""
+
+    def __init__(self, *must_be_concrete: typing.Any) -> None:
+        self._vals = must_be_concrete
+        self._ctx: typing.Any = None
+
+    def __enter__(self) -> None:
+        if is_tracing():
+            self._ctx = NoTracing()
+            self._ctx.__enter__()
+            for v in self._vals:
+                if hasattr(type(v), "__ch_realize__"):
+                    raise HarnessError(f"symbolic value {type(v).__name__} inside a concrete section")
+
+    def __exit__(self, *a: typing.Any) -> bool:
+        if self._ctx is not None:
+            self._ctx.__exit__(*a)
+        return False
